@@ -220,6 +220,32 @@ impl<'de> de::Deserializer<'de> for FieldValueDeserializer {
         self.deserialize_any(visitor)
     }
 
+    fn deserialize_newtype_struct<V>(
+        self,
+        _name: &'static str,
+        visitor: V,
+    ) -> Result<V::Value, Self::Error>
+    where
+        V: de::Visitor<'de>,
+    {
+        // A newtype struct is transparent: it holds exactly the value it wraps.
+        visitor.visit_newtype_struct(self)
+    }
+
+    fn deserialize_tuple_struct<V>(
+        self,
+        _name: &'static str,
+        len: usize,
+        visitor: V,
+    ) -> Result<V::Value, Self::Error>
+    where
+        V: de::Visitor<'de>,
+    {
+        // Same arity check as for plain tuples: without it, a list longer than
+        // the tuple struct is silently truncated to the struct's length.
+        self.deserialize_tuple(len, visitor)
+    }
+
     fn deserialize_option<V>(self, visitor: V) -> Result<V::Value, Self::Error>
     where
         V: de::Visitor<'de>,
@@ -255,7 +281,7 @@ impl<'de> de::Deserializer<'de> for FieldValueDeserializer {
 
     serde::forward_to_deserialize_any! {
         bool i64 i128 u64 u128 f64 char str string seq
-        bytes byte_buf unit unit_struct newtype_struct
-        tuple_struct map enum struct identifier
+        bytes byte_buf unit unit_struct
+        map enum struct identifier
     }
 }
